@@ -16,7 +16,7 @@ EXIT_OK, EXIT_VIOLATION, EXIT_UNDECIDED, EXIT_CRASH = 0, 1, 2, 3
 
 class Obligation:
     def __init__(self, oid, fn, sorts, order=None, funcs=(), tier="quick", axioms=(), lemmas=(), bounded=None,
-                 numeric=True, sizes=None, note="", only_clauses=None, skip_clauses=None, allow_empty=False):
+                 numeric=True, sizes=None, note="", only_clauses=None, skip_clauses=None, allow_empty=False, unit_sorts=()):
         self.id = oid
         self.fn = fn
         self.sorts = list(sorts)
@@ -32,6 +32,7 @@ class Obligation:
         self.only_clauses = list(only_clauses) if only_clauses else None
         self.skip_clauses = list(skip_clauses or [])
         self.allow_empty = allow_empty
+        self.unit_sorts = tuple(unit_sorts)      # sorts of size ONE in this configuration (both worlds)
 
     def keeps(self, clause):
         if clause == "<no-raise>":
@@ -68,7 +69,8 @@ class Registry:
                                        tier=tier or o.tier, axioms=o.axioms, lemmas=o.lemmas, bounded=o.bounded,
                                        numeric=o.numeric, sizes=o.sizes, note=o.note,
                                        only_clauses=only_clauses if only_clauses is not None else o.only_clauses,
-                                       skip_clauses=(skip_clauses or []) + o.skip_clauses, allow_empty=True))
+                                       skip_clauses=(skip_clauses or []) + o.skip_clauses, allow_empty=True,
+                                       unit_sorts=o.unit_sorts))
 
 
 # ------------------------------------------------------------------ size assignments for the numeric world
@@ -88,6 +90,8 @@ def size_assignments(ob, nvariants, seed):
         vals = list(range(2, 2 + max(3, len(sorts) + 1)))
         rnd.shuffle(vals)
         cand = {s: vals[i % len(vals)] for i, s in enumerate(sorts)}
+        for s_ in getattr(ob, "unit_sorts", ()):
+            cand[s_] = 1
         ok = True
         for (a, b), gt in ob.order.items():
             if a in cand and b in cand:
@@ -117,7 +121,7 @@ def run_symbolic(ob, canary=False):
     order = {}
     for (a, b), gt in ob.order.items():
         order[(a, b)] = gt
-    w = SymWorld(order=order)
+    w = SymWorld(order=order, unit_sorts=ob.unit_sorts)
     w.canary = canary
     t0 = time.time()
     status, err = "ok", ""
